@@ -29,9 +29,13 @@ func (s *State) clone() *State {
 }
 
 type Heaper struct {
-	vc *VC
-	sp *Specs
+	vc     *VC
+	sp     *Specs
+	reify  func(*Sym) *Sym
+	isDual func(types.Type) bool
 }
+
+func isElemTerm(p *Term) *Term { return app(SBool, "<", p, mkInt64(-1000000000)) }
 
 func (h *Heaper) heapGet(st *State, f Family) *Term {
 	if t, ok := st.heap[f.Name]; ok {
@@ -75,10 +79,22 @@ func (h *Heaper) closedness(arr *Term, f Family, ctr string) {
 		return
 	}
 	if f.Root == RElem {
-		h.vc.assertGlobalOrLine(fmt.Sprintf("(forall ((r!c Int) (i!c (_ BitVec 64))) (! (=> (<= r!c %s) (and (<= 0 (select (select %s r!c) i!c)) (<= (select (select %s r!c) i!c) %s))) :pattern ((select (select %s r!c) i!c))))", ctr, arr.S, arr.S, ctr, arr.S), ctr == "ctr0")
+		v := fmt.Sprintf("(select (select %s r!c) i!c)", arr.S)
+		h.vc.assertGlobalOrLine(fmt.Sprintf("(forall ((r!c Int) (i!c (_ BitVec 64))) (! (=> (<= r!c %s) %s) :pattern (%s)))", ctr, refRange(f.Leaf.T, v, ctr), v), ctr == "ctr0")
 		return
 	}
-	h.vc.assertGlobalOrLine(fmt.Sprintf("(forall ((r!c Int)) (! (=> (<= r!c %s) (and (<= 0 (select %s r!c)) (<= (select %s r!c) %s))) :pattern ((select %s r!c))))", ctr, arr.S, arr.S, ctr, arr.S), ctr == "ctr0")
+	v := fmt.Sprintf("(select %s r!c)", arr.S)
+	h.vc.assertGlobalOrLine(fmt.Sprintf("(forall ((r!c Int)) (! (=> (<= r!c %s) %s) :pattern (%s)))", ctr, refRange(f.Leaf.T, v, ctr), v), ctr == "ctr0")
+}
+
+// refRange: the values a stored reference of Go type t can take: an allocated object (or nil), or -
+// for pointers to struct types whose slice elements are addressed - an element reference.
+func refRange(t types.Type, v, ctr string) string {
+	base := fmt.Sprintf("(and (<= 0 %s) (<= %s %s))", v, v, ctr)
+	if p, ok := t.Underlying().(*types.Pointer); ok && kindOf(p.Elem()) == KStruct && dualTypes[typeName(p.Elem())] {
+		return fmt.Sprintf("(or %s (< %s (- 1000000000)))", base, v)
+	}
+	return base
 }
 
 func (h *Heaper) heapSet(st *State, f Family, t *Term) {
@@ -123,6 +139,18 @@ func (h *Heaper) loadLeaves(st *State, lv *LVal, off, n int) []*Term {
 			out[i] = mkSelect(mkSelect(h.heapGet(st, fams[off+i]), lv.Ref), lv.Idx)
 		}
 		return out
+	case RDual:
+		h.vc.theories["eref"] = true
+		sf := familiesOf(RStruct, lv.RootT)
+		ef := familiesOf(RElem, lv.RootT)
+		out := make([]*Term, n)
+		ie := isElemTerm(lv.Ref)
+		for i := 0; i < n; i++ {
+			a := mkSelect(mkSelect(h.heapGet(st, ef[off+i]), app(SInt, "eArr", lv.Ref)), app(bvSort(64), "eIdx", lv.Ref))
+			b := mkSelect(h.heapGet(st, sf[off+i]), lv.Ref)
+			out[i] = mkIte(ie, a, b)
+		}
+		return out
 	}
 	panic("loadLeaves")
 }
@@ -150,6 +178,21 @@ func (h *Heaper) storeLeaves(st *State, lv *LVal, off int, vals []*Term) {
 			whole := h.heapGet(st, f)
 			inner := mkStore(mkSelect(whole, lv.Ref), lv.Idx, x)
 			h.heapSet(st, f, mkStore(whole, lv.Ref, inner))
+		}
+	case RDual:
+		h.vc.theories["eref"] = true
+		sf := familiesOf(RStruct, lv.RootT)
+		ef := familiesOf(RElem, lv.RootT)
+		ie := isElemTerm(lv.Ref)
+		ea, ei := app(SInt, "eArr", lv.Ref), app(bvSort(64), "eIdx", lv.Ref)
+		for i, x := range vals {
+			f := ef[off+i]
+			whole := h.heapGet(st, f)
+			inner := mkStore(mkSelect(whole, ea), ei, x)
+			h.heapSet(st, f, mkIte(ie, mkStore(whole, ea, inner), whole))
+			g := sf[off+i]
+			cur := h.heapGet(st, g)
+			h.heapSet(st, g, mkIte(ie, cur, mkStore(cur, lv.Ref, x)))
 		}
 	}
 }
@@ -185,7 +228,10 @@ func (h *Heaper) store(st *State, lv *LVal, v *Sym) {
 			st.cells[lv.Cell] = &Sym{T: c.T, LV: v.LV}
 			return
 		}
-		panic("executor-level pointer escapes into memory: " + v.LV.String())
+		if h.reify == nil {
+			panic("executor-level pointer escapes into memory: " + v.LV.String())
+		}
+		v = h.reify(v)
 	}
 	n := len(leavesOf(lv.T))
 	if lv.Sub != nil {
@@ -220,6 +266,8 @@ func (h *Heaper) store(st *State, lv *LVal, v *Sym) {
 }
 
 // lvalOfPtr interprets a pointer-typed Sym as an lvalue designating its pointee.
+var dualTypes = map[string]bool{}
+
 func lvalOfPtr(p *Sym, elemT types.Type) *LVal {
 	if p.LV != nil {
 		return p.LV
@@ -227,6 +275,9 @@ func lvalOfPtr(p *Sym, elemT types.Type) *LVal {
 	r := p.term()
 	switch kindOf(elemT) {
 	case KStruct:
+		if dualTypes[typeName(elemT)] {
+			return &LVal{Root: RDual, Ref: r, RootT: elemT, T: elemT}
+		}
 		return &LVal{Root: RStruct, Ref: r, RootT: elemT, T: elemT}
 	default:
 		return &LVal{Root: RBox, Ref: r, RootT: elemT, T: elemT}
@@ -262,9 +313,10 @@ func wellTyped(t types.Type, ls []*Term, ctr *Term) []*Term {
 			out = append(out, mkImp(mkEq(arr, mkInt64(0)), mkEq(ln, mkBVu(0, 64))))
 			i += 3
 		case KPtr, KMap:
-			out = append(out, app(SBool, "<=", mkInt64(0), ls[i]))
 			if ctr != nil {
-				out = append(out, app(SBool, "<=", ls[i], ctr))
+				out = append(out, mkRaw(refRange(t, ls[i].S, ctr.S), SBool))
+			} else {
+				out = append(out, mkRaw(refRange(t, ls[i].S, "1000000000000"), SBool))
 			}
 			i++
 		case KArr:
